@@ -1,6 +1,7 @@
 /-
   C17 — mirror of `(*Plugin).FullSource` (plugin.go) with a model of the parts of
-  `net/url.Parse` and `path.Join`/`path.Clean` it depends on.
+  `net/url.Parse` it depends on. (Until fix 3ced888 the code cleaned the result with `path.Join`;
+  `cleanRel`/`pathJoin` below model that and are kept for the record of finding F17.)
 
   `fullSource` returns `none` for inputs on which `url.Parse` takes paths this model does not
   describe (percent escapes, `?` queries): those are outside the property's documented forms.
@@ -93,7 +94,7 @@ def fullSource (s : Str) : Option Str :=
     else
       let (u, frag) := cutHash s
       if hasCTL u then some s                      -- url.Parse error ⇒ Source
-      else if u == ['*'] then some (pathJoin [githubCom, bkPlugins, lastSegment u frag])
+      else if u == ['*'] then some (githubCom ++ '/' :: bkPlugins ++ '/' :: lastSegment u frag)
       else
         match getScheme u with
         | .err => some s                            -- url.Parse error ⇒ Source
@@ -105,8 +106,8 @@ def fullSource (s : Str) : Option Str :=
           else
             -- Path = u, Fragment = frag
             match splitOn '/' u with
-            | [p0] => some (pathJoin [githubCom, bkPlugins, lastSegment p0 frag])
-            | [p0, p1] => some (pathJoin [githubCom, p0, lastSegment p1 frag])
+            | [p0] => some (githubCom ++ '/' :: bkPlugins ++ '/' :: lastSegment p0 frag)
+            | [p0, p1] => some (githubCom ++ '/' :: p0 ++ '/' :: lastSegment p1 frag)
             | _ => some s
 
 /-- `strings.Cut(rest, "?")` (and the `ForceQuery` case): the text before the first `?`. -/
@@ -126,7 +127,7 @@ def fullSourceQ (s : Str) : Option Str :=
     else
       let (u, frag) := cutHash s
       if hasCTL u then some s
-      else if u == ['*'] then some (pathJoin [githubCom, bkPlugins, lastSegment u frag])
+      else if u == ['*'] then some (githubCom ++ '/' :: bkPlugins ++ '/' :: lastSegment u frag)
       else
         match getScheme u with
         | .err => some s
@@ -137,8 +138,8 @@ def fullSourceQ (s : Str) : Option Str :=
           if seg0.contains ':' then some s
           else
             match splitOn '/' rest with
-            | [p0] => some (pathJoin [githubCom, bkPlugins, lastSegment p0 frag])
-            | [p0, p1] => some (pathJoin [githubCom, p0, lastSegment p1 frag])
+            | [p0] => some (githubCom ++ '/' :: bkPlugins ++ '/' :: lastSegment p0 frag)
+            | [p0, p1] => some (githubCom ++ '/' :: p0 ++ '/' :: lastSegment p1 frag)
             | _ => some s
 
 /-! ## Documented domain -/
